@@ -150,7 +150,8 @@ package stanza
 //@ event TokenRead(t Iface)
 //@ pred isStreamEnd(t) := typeof(t) == xml.EndElement && t.(xml.EndElement).Name.Space == NSStream && t.(xml.EndElement).Name.Local == "stream"
 //@ pred seSpace(t) := t.(xml.StartElement).Name.Space
-//@ pred attrOf(attrs, name, v, v0) := (forall(k, 0, len(attrs), attrs[k].Name.Local != name) && v == v0) || exists(k, 0, len(attrs), attrs[k].Name.Local == name && v == attrs[k].Value && forall(j, k + 1, len(attrs), attrs[j].Name.Local != name))
+//@ pred isAttr(a, name) := a.Name.Local == name && (a.Name.Space == "" || name == "lang")
+//@ pred attrOf(attrs, name, v, v0) := (forall(k, 0, len(attrs), !isAttr(attrs[k], name)) && v == v0) || exists(k, 0, len(attrs), isAttr(attrs[k], name) && v == attrs[k].Value && forall(j, k + 1, len(attrs), !isAttr(attrs[j], name)))
 //@ pred seName(t) := t.(xml.StartElement).Name
 //@ pred seAttr(t) := t.(xml.StartElement).Attr
 //@ pred seLocal(t) := t.(xml.StartElement).Name.Local
